@@ -243,7 +243,7 @@ static inline double cmb_wtdsummary_skewness(const struct cmb_wtdsummary *wsp)
     const struct cmb_datasummary *dsp = (const struct cmb_datasummary *)wsp;
     cmb_assert_release(dsp->cookie == CMI_INITIALIZED);
     double r = 0.0;
-    if ((dsp->count > 2u) && (wsp->wsum > 0.0)) {
+    if ((dsp->count > 2u) && (wsp->wsum > 0.0) && (dsp->m2 > 0.0)) {
         /* As cmb_datasummary_skewness, with the summed weights as the mass */
         const double dn = (double)dsp->count;
         const double g = sqrt(wsp->wsum) * dsp->m3 / pow(dsp->m2, 1.5);
@@ -269,7 +269,7 @@ static inline double cmb_wtdsummary_kurtosis(const struct cmb_wtdsummary *wsp)
     const struct cmb_datasummary *dsp = (const struct cmb_datasummary *)wsp;
     cmb_assert_release(dsp->cookie == CMI_INITIALIZED);
     double r = 0.0;
-    if ((dsp->count > 3u) && (wsp->wsum > 0.0)) {
+    if ((dsp->count > 3u) && (wsp->wsum > 0.0) && (dsp->m2 > 0.0)) {
         /* As cmb_datasummary_kurtosis, with the summed weights as the mass */
         const double dn = (double)dsp->count;
         const double g = wsp->wsum * dsp->m4 / (dsp->m2 * dsp->m2) - 3.0;
